@@ -175,7 +175,7 @@ def make_box(coords, box, exact):
             # the box meets the coordinate range on one face from outside: the extreme coordinate itself is the
             # face (the same float, so the comparison is exact on any lattice)
             vals = [c[k] for c in coords] or [0.0]
-            pad = 1.0 + 0.25 * (max(vals) - min(vals))
+            pad = (1.0 + 0.25 * (max(vals) - min(vals))) * (1.0 if exact else 0.7)
             if a % 2:
                 lo.append(float(max(vals)))
                 hi.append(float(max(vals) + pad * (1 + d % 3)))
